@@ -50,7 +50,8 @@ func VC02_SignedImage() {
 	ck := e + 24 + 64
 	dd4 := ck - 64 + 144
 	sh := int(uint32(img[e+24+60]) | uint32(img[e+24+61])<<8 | uint32(img[e+24+62])<<16)
-	switch vsym.Pick("region", vsymC02Regions) {
+	region := vsym.Pick("region", vsymC02Regions)
+	switch region {
 	case 0: // a covered byte after the headers (section data, trailing data): position symbolic, in windows
 		// (the last window of the fixture is its COFF symbol/string table: debug/pe walks it with the
 		// mutated values, which is expensive; it is included only when vsymC02Regions == 4)
@@ -87,6 +88,23 @@ func VC02_SignedImage() {
 	v := vsym.U8("value")
 	vsym.Assume(v != signed[pos])
 	mut[pos] = v
+	if region == 0 && vsym.Bool("forge") {
+		// the composed forgery: after changing a covered byte, the adversary rewrites the embedded image
+		// digest to that of the changed image, and may relabel the SignerInfo digest algorithm (all
+		// unsigned parts of the blob); only the signed messageDigest attribute stands in the way
+		if fm, ferr := Parse(bytes.NewReader(mut)); ferr == nil {
+			nd := fm.Hash(crypto.SHA256)
+			i := 0
+			for i+32 <= len(blob)-300 && !bytes.Equal(blob[i:i+32], digest) {
+				i++
+			}
+			copy(mut[blobOff+i:blobOff+i+32], nd)
+			if vsym.Bool("relabel.digest.alg") {
+				vSignerInfoRegions(blob)
+				mut[blobOff+vDigestAlgOff+12] = 0x02
+			}
+		}
+	}
 	qm, perr := Parse(bytes.NewReader(mut))
 	if perr != nil {
 		vsym.Reach("mutant-rejected-by-parser")
@@ -96,6 +114,9 @@ func VC02_SignedImage() {
 	vsym.Assert(!okm, "a signed image with one changed covered or signed byte does not verify")
 	vsym.Reach("end")
 }
+
+// vDigestAlgOff is set by vSignerInfoRegions: offset of the SignerInfo's digestAlgorithm SEQUENCE.
+var vDigestAlgOff int
 
 // vSignerInfoRegions locates, inside a SignedData blob produced by the library (ContentInfo ->
 // SignedData -> ... -> SET OF SignerInfo), the issuerAndSerialNumber, the [0] signed attributes and
@@ -132,6 +153,7 @@ func vSignerInfoRegions(blob []byte) (idOff, idLen, attrOff, attrLen, sigOff, si
 	h, _ := hdr(off)
 	idLen = h + l
 	off = skip(off) // issuerAndSerialNumber
+	vDigestAlgOff = off
 	off = skip(off) // digestAlgorithm
 	h, l = hdr(off)
 	attrOff, attrLen = off+h, l
